@@ -342,6 +342,102 @@ def r07_6(ctx):
     return out
 
 
+class PtE(StandIn):
+    def __init__(self, name):
+        self.name = name
+
+    def __eq__(self, o):
+        return isinstance(o, PtE) and o.name == self.name
+
+    def __ne__(self, o):
+        return not self.__eq__(o)
+
+    def __hash__(self):
+        return hash(self.name)
+
+    def __repr__(self):
+        return self.name
+
+
+class SgE(StandIn):
+    """cleaned segment: equal iff same control point names in the same order"""
+
+    def __init__(self, names):
+        self.ctrlpoints = tuple(PtE(n) for n in names)
+        self.degree = len(names) - 1
+        self.npts = len(names)
+
+    def __eq__(self, o):
+        return isinstance(o, SgE) and [p.name for p in o.ctrlpoints] == [p.name for p in self.ctrlpoints]
+
+    def __ne__(self, o):
+        return not self.__eq__(o)
+
+    def __hash__(self):
+        return hash(tuple(p.name for p in self.ctrlpoints))
+
+
+class CvE(StandIn):
+    def __init__(self, segs, on_other=True):
+        self.segments = tuple(SgE(s) for s in segs)
+        self.on_other = on_other
+
+    @property
+    def vertices(self):
+        out, seen = [], set()
+        for s in self.segments:
+            for p in s.ctrlpoints:
+                if p.name not in seen:
+                    seen.add(p.name)
+                    out.append(p)
+        return tuple(out)
+
+    def points(self, n):
+        return tuple(("pt", self.on_other) for _ in range(3))
+
+    def __contains__(self, pt):
+        return pt[1]
+
+    def __copy__(self):
+        return self
+
+    def clean(self):
+        return self
+
+
+def r07_8(ctx):
+    out = Outcome("R07.8", "JordanCurve.__eq__ (after its sampling test) compares the cleaned segment sequences up to "
+                           "rotation of the start segment, also for mixed degrees", floor=6)
+    fn = ctx.fn("jordancurve.JordanCurve.__eq__")
+    base = [("A", "B"), ("B", "q", "C"), ("C", "r", "s", "D"), ("D", "A")]          # degrees 1, 2, 3, 1
+    worlds = {
+        "same curve, same start": (base, base, True, True),
+        "same curve, started one segment later": (base, base[1:] + base[:1], True, True),
+        "same curve, started after the curved segments": (base, base[3:] + base[:3], True, True),
+        "same curve, started two segments later": (base, base[2:] + base[:2], True, True),
+        "one segment differs": (base, [("A", "B"), ("B", "x", "C"), ("C", "r", "s", "D"), ("D", "A")], True, False),
+        "different number of segments": (base, base[:3] + [("D", "m"), ("m", "A")], True, False),
+        "a sample point of other is off self": (base, base, False, False),
+        "reversed orientation": (base, [tuple(reversed(s)) for s in reversed(base)], True, False),
+    }
+    for label, (a, b, on, want) in worlds.items():
+        S, O = CvE(a), CvE(b, on_other=on)
+        try:
+            got = Runner(ctx, set(), lambda rn, ev, c, n, r, a_, k: True if n == "isinstance" else NotImplemented,
+                         asserts=True).call_fn(fn, [S, O])
+        except Undecided as ex:
+            out.undecided(fn.qname, f"{label}: {ex}", where=fn.where())
+            continue
+        except (Raised, IndexError, ValueError) as ex:
+            out.bad(fn.qname, f"== raises: {label}", where=fn.where(), detail=str(getattr(ex, "what", ex)))
+            continue
+        if got is not want:
+            out.bad(fn.qname, f"wrong answer: {label}", where=fn.where(), detail=f"returns {got!r}, required {want}")
+        else:
+            out.ok(fn.qname, f"{label} -> {want}", where=fn.where())
+    return out
+
+
 def r07_7(ctx):
     from rules import C15
     o = C15.r15_3(ctx)
@@ -349,4 +445,4 @@ def r07_7(ctx):
     return o
 
 
-RULES = [r07_1, r07_2, r07_4, r07_5, r07_6, r07_7]
+RULES = [r07_1, r07_2, r07_4, r07_5, r07_6, r07_7, r07_8]
